@@ -22,8 +22,8 @@ from .canon import canon_closed_form, canon_typedefs
 ANSI = re.compile(r"\x1b\[[0-9;]*m")
 
 
-class StepTimeout(Exception):
-    pass
+class StepTimeout(BaseException):
+    """raised by the step alarm; a BaseException so that `except Exception` inside sympy cannot swallow it"""
 
 
 def _alarm(signum, frame):
